@@ -1,4 +1,4 @@
-//@ unit i_setbit : BigInt::set_bit at value level, including the five sub-cases of set_negative_bit on the two's-complement view of a negative number (src/bigint.rs, src/bigint/bits.rs)
+//@ unit i_setbit : BigInt::bits and BigInt::set_bit at value level, including the five sub-cases of set_negative_bit on the two's-complement view of a negative number (src/bigint.rs, src/bigint/bits.rs)
 #![feature(allocator_api)]
 use vstd::prelude::*;
 use vstd::std_specs::iter::IteratorSpec;
@@ -12,6 +12,7 @@ verus! {
 //@ include prelude/bitdigits.rs
 //@ include prelude/bitval.rs
 //@ include prelude/twos.rs
+//@ include prelude/highbits.rs
 //@ extract src/bigint.rs :: enum Sign attrs=1
 #[derive(/*+*/Structural, /*-*/PartialEq, PartialOrd, Eq, Ord, Copy, Clone, Debug, Hash)]
 pub enum Sign {
@@ -65,6 +66,7 @@ impl BigUint {
 //@ stub u_bitq/set_bit
 //@ stub i_bits/digits_mut
 //@ stub i_bits/biguint_len
+//@ stub u_conv/bits
 }
 
 //@ extract src/bigint.rs :: struct BigInt
@@ -452,6 +454,24 @@ pub(super) fn set_negative_bit(x: &mut BigInt, bit: u64, value: bool)
 
 impl BigInt {
 //@ stub i_core/bigint_normalize
+
+//@ extract src/bigint.rs :: impl BigInt :: fn bits props=C07 label=bigint_bits
+    pub fn bits(&self) -> /*+*/(r: /*-*/u64/*+*/)/*-*/
+//+{
+        requires self.wfi()
+        ensures
+            self.mag().v() as int == (if self.iv() < 0 { -self.iv() } else { self.iv() }),
+            self.mag().v() < pow2(r as nat),
+            self.iv() != 0 ==> r >= 1 && self.mag().v() >= pow2((r - 1) as nat),
+            self.iv() == 0 ==> r == 0,
+//+}
+    {
+//+{
+        proof { lemma_sgn_mul(self.sign, self.data.v()); if self.data.dg().len() > 0 { lemma_wf_lower(self.data.dg()); lemma_pw_pos((self.data.dg().len() - 1) as nat); } }
+//+}
+        self.data.bits()
+    }
+//@ end
 
 //@ extract src/bigint.rs :: impl BigInt :: fn set_bit rules=R0,R0q props=C07 label=bigint_set_bit
     pub fn set_bit(&mut self, bit: u64, value: bool)
